@@ -1314,7 +1314,9 @@ class Logger:
                             return (yield from function(*args, **kwargs))
                         return default
 
-                elif isasyncgenfunction(function):
+                elif isasyncgenfunction(function) or getattr(
+                    function, "_loguru_catch_asyncgen", False
+                ):
 
                     class AsyncGenCatchWrapper(AsyncGenerator):
 
@@ -1343,6 +1345,10 @@ class Logger:
                     def catch_wrapper(*args, **kwargs):
                         gen = function(*args, **kwargs)
                         return AsyncGenCatchWrapper(gen)
+
+                    # The wrapper is a plain function returning an async generator-like object;
+                    # mark it so that another "catch()" stacked on top still guards the iteration.
+                    catch_wrapper._loguru_catch_asyncgen = True
 
                 else:
 
